@@ -514,8 +514,11 @@ distinct = distinct elevation strings / azimuth-list pairs; oracle = 10-line ref
         let la = rng.urange(0, 400);
         let lb = rng.urange(0, 400);
         let span = *rng.pick(&[1u64, 3, 10, 720, 65_535]);
-        let a: Vec<u16> = (0..la).map(|_| rng.below(span + 1) as u16).collect();
-        let b: Vec<u16> = (0..lb).map(|_| rng.below(span + 1) as u16).collect();
+        // the ends of the number's wire type are azimuth numbers like any other
+        let edge = i % 5 == 0;
+        let draw = |rng: &mut Rng| -> u16 { if edge && rng.chance(1, 8) { *rng.pick(&[0u16, 1, 65_534, 65_535]) } else { rng.below(span + 1) as u16 } };
+        let a: Vec<u16> = (0..la).map(|_| draw(&mut rng)).collect();
+        let b: Vec<u16> = (0..lb).map(|_| draw(&mut rng)).collect();
         let e1 = rng.u8();
         let e2 = if rng.chance(3, 4) { e1 } else { rng.u8() };
         check_merge_ident(ctx, e1, &a, e2, &b, i % 4 == 0, mix(5, i));
